@@ -187,6 +187,11 @@ func (runInfo *runInfoStruct) runStmtsStmt(stmts *ast.StmtsStmt) {
 
 // runVarStmt executes a var statement.
 func (runInfo *runInfoStruct) runVarStmt(stmt *ast.VarStmt) {
+	if len(stmt.Names) < 1 || len(stmt.Exprs) < 1 {
+		runInfo.err = newStringError(stmt, "invalid operation")
+		runInfo.rv = nilValue
+		return
+	}
 	// get right side expression values
 	rvs := make([]reflect.Value, len(stmt.Exprs))
 	var i int
